@@ -146,6 +146,10 @@ pub fn gen_msgs_ext(ty: &Ty, t: &mut Tape, max: usize, limit: usize, shrink: boo
     let mut has_padding = false;
     for _ in 0..n {
         let mut fuel = Fuel { elems: 40, max_len: 10, overlong: false };
+        if shrink && t.chance(1, 10) {
+            // now and then a message of a few hundred bytes (a send that takes hundreds of pipe calls under byte-sized chunks)
+            fuel = Fuel { elems: 330, max_len: 300, overlong: false };
+        }
         let v = gen_value(ty, t, &mut fuel);
         let v = if shrink && ty.has_default() && t.chance(1, 8) { default_value(ty) } else { v };
         let size = model::size_of(ty, &v);
